@@ -49,6 +49,19 @@ def cases(tier, seed):
             if max(fv) == 0:
                 continue
             yield {"fam": "cyc", "nodes": names, "arcs": [[u, v, w] for (u, v), w in zip(arcs, fv)], "full": i % 7 == 0, "kmax": 2, "B": 2 if q else 3}
+    # a single walk of weight 1 that goes round a cycle r times, r in {2, 3, 4} (multiplicities that are and are not powers of two):
+    # the optimum is error / slack 0 with k = 1
+    for idx, shp in enumerate(world.dig_shapes(4, 4)):
+        if world.is_acyclic(*shp):
+            continue
+        names, arcs = world.present(shp, seed, idx)
+        g_ = O.STGraph(names, arcs)
+        vs = sorted(set(v for v, _, _ in O.walk_vectors(g_, {e: 4 for e in g_.arcs})))
+        picked = 0
+        for v in vs:
+            if max(v) in (2, 3, 4) and min(v) >= 1 and picked < 4:
+                picked += 1
+                yield {"fam": "cyc", "nodes": names, "arcs": [[a, b, w] for (a, b), w in zip(arcs, v)], "full": False, "kmax": 1, "B": 4}
     for idx, shp in enumerate(world.named_shapes()):
         names, arcs = world.present(shp, seed, 1000 + idx)
         if len(arcs) > 7:
